@@ -19,6 +19,9 @@ pub struct RecS {
     /// FASTA: sequence lines (may be empty = blank line inside the record); FASTQ: exactly one
     pub lines: Vec<B>,
     pub qual: Option<B>,
+    /// FASTQ: text after the '+' of the separator line (None = bare '+'; old-style files repeat the header there)
+    #[serde(default)]
+    pub sep: Option<B>,
 }
 
 #[derive(Clone, Debug, Serialize, Deserialize, Hash)]
@@ -66,6 +69,9 @@ pub fn render(c: &Case, pattern: &[bool]) -> Vec<u8> {
         }
         if let Some(q) = &r.qual {
             out.push(b'+');
+            if let Some(t) = &r.sep {
+                out.extend_from_slice(t);
+            }
             term(&mut out);
             out.extend_from_slice(q);
             last_crlf = term(&mut out);
@@ -103,11 +109,16 @@ impl Prop for LineEndings {
                     l.0[0] = b'A';
                 }
             }
-            RecS { head, lines, qual: None }
+            RecS { head, lines, qual: None, sep: None }
         });
-        let fq_rec = (field(), field(), vec(prop::sample::select(&b"!5I~@+"[..]), 12)).prop_map(|(head, seq, q)| {
+        let fq_rec = (field(), field(), vec(prop::sample::select(&b"!5I~@+"[..]), 12), prop_oneof![6 => Just(None), 1 => field().prop_map(Some), 2 => Just(Some(B(vec![0])))]).prop_map(|(head, seq, q, sep)| {
             let qual = B(q[..seq.len()].to_vec());
-            RecS { head, lines: vec![seq], qual: Some(qual) }
+            // Some([0]) stands for "the header repeated"
+            let sep = match sep {
+                Some(t) if t.0 == [0] => Some(head.clone()),
+                x => x,
+            };
+            RecS { head, lines: vec![seq], qual: Some(qual), sep }
         });
         let caps = || prop_oneof![6 => 3usize..24, 1 => 24usize..200];
         let mode = || prop_oneof![3 => Just(Mode::Next), 1 => Just(Mode::Sets), 1 => Just(Mode::Records)];
@@ -290,7 +301,7 @@ pub fn check_case(c: &Case, ctx: &mut Ctx) -> CheckResult {
     Ok(())
 }
 
-pub const RULE: &str = "cases = well-formed structure (FASTA: 0..3 leading blank lines, 0..5 records, header-only records, blank lines inside records, 0..2 trailing blank lines; FASTQ: 0..5 valid records, 0..2 trailing blank lines; fields free of CR/LF) rendered twice: all-LF and {all-CRLF | FASTA: per-line mixture}, with/without final terminator, read with two generated capacities (B also with a chunk script) in next / record-set / records() mode. Oracle: identical outcomes (records, terminal), identical line numbers, identical whole-sequence views (full_seq, owned_seq, owned record), no CR in any field, and both equal the structure they were rendered from (so no error appears or disappears). Exhaustive sub-check over tiny structures x capacities 3..10. Non-trivial = >= 1 record and the two renderings differ. Distinct = hash(case).";
+pub const RULE: &str = "cases = well-formed structure (FASTA: 0..3 leading blank lines, 0..5 records, header-only records, blank lines inside records, 0..2 trailing blank lines; FASTQ: 0..5 valid records whose separator line is a bare '+', '+' with text or '+' with the repeated header, 0..2 trailing blank lines; fields free of CR/LF) rendered twice: all-LF and {all-CRLF | FASTA: per-line mixture}, with/without final terminator, read with two generated capacities (B also with a chunk script) in next / record-set / records() mode. Oracle: identical outcomes (records, terminal), identical line numbers, identical whole-sequence views (full_seq, owned_seq, owned record), no CR in any field, and both equal the structure they were rendered from (so no error appears or disappears). Exhaustive sub-check over tiny structures x capacities 3..10. Non-trivial = >= 1 record and the two renderings differ. Distinct = hash(case).";
 
 pub fn run(tier: Tier) -> i32 {
     let mut run = Run::new("C12", tier, "exploration");
@@ -312,13 +323,13 @@ pub fn run(tier: Tier) -> i32 {
         let mut fa_recs: Vec<RecS> = Vec::new();
         for h in heads {
             for ll in &line_lists {
-                fa_recs.push(RecS { head: B::new(h), lines: ll.clone(), qual: None });
+                fa_recs.push(RecS { head: B::new(h), lines: ll.clone(), qual: None, sep: None });
             }
         }
         let mut fq_recs: Vec<RecS> = Vec::new();
         for h in heads {
             for s in lines {
-                fq_recs.push(RecS { head: B::new(h), lines: vec![B::new(s)], qual: Some(B(vec![b'I'; s.len()])) });
+                fq_recs.push(RecS { head: B::new(h), lines: vec![B::new(s)], qual: Some(B(vec![b'I'; s.len()])), sep: None });
             }
         }
         let mut cases: Vec<Case> = Vec::new();
